@@ -1,6 +1,7 @@
 P = dict(
     harness='c15_oominject.cpp',
-    variants=dict(quick=['asan'], thorough=['asan', 'asan-noexc']),
+    variants=dict(quick=['asan', 'memcheck'], thorough=['asan', 'asan-noexc', 'memcheck']),
+    memcheck_stride=dict(quick=40, thorough=40),
     level='fault_enumeration',
     technique='runtime monitoring with fault enumeration: set-membership reference model (global index / location x local index / countdown) against FailableMemoryAllocator used directly and installed behind new, new[], malloc/calloc/strdup/strndup, and against the C-level countdown; every allocation point of fixed workloads designated in turn; ASan/UBSan build',
     rule='cases: (a) fault enumeration - 4 fixed workloads x {direct, installed behind all three families} x every single designation (each global index 1..N+2, each (location, local index) incl. one beyond the last) and, for the two 12-allocation workloads, every ordered pair of designations; '
